@@ -8,6 +8,7 @@ import (
 	"os"
 	"os/exec"
 	"path/filepath"
+	"runtime"
 	"runtime/debug"
 	"strings"
 	"time"
@@ -106,8 +107,32 @@ func CompileLimit(src string, o Opts, limit time.Duration) Result {
 		r.Dur = time.Since(t0)
 		return r
 	case <-time.After(limit):
-		return Result{TimedOut: true, Dur: time.Since(t0)}
 	}
+	// No answer within the limit.  The goroutine cannot be stopped, and a compilation that loops
+	// while allocating would take the whole harness down with it (seen: 200 MB/s), so the question
+	// is settled here: a grace period of twice the limit tells "slow under load" (the result then
+	// still counts as timed out) from "hung", and a hung compilation ends the run at once with a
+	// violation of the property being checked.
+	var m0 runtime.MemStats
+	runtime.ReadMemStats(&m0)
+	deadline := time.Now().Add(2 * limit)
+	for time.Now().Before(deadline) {
+		select {
+		case <-ch:
+			return Result{TimedOut: true, Dur: time.Since(t0)}
+		case <-time.After(100 * time.Millisecond):
+		}
+		var m runtime.MemStats
+		runtime.ReadMemStats(&m)
+		if m.HeapAlloc > m0.HeapAlloc+(3<<30) {
+			break
+		}
+	}
+	if curCtx != nil {
+		oc := o
+		curCtx.abortNow(Violation{What: fmt.Sprintf("the compiler did not answer within %v (it hangs, or grows without bound)", 3*limit), Source: src, Opts: &oc})
+	}
+	return Result{TimedOut: true, Dur: time.Since(t0)}
 }
 
 // RunBinary runs the real poryscript binary (built from /repo by ./check).
